@@ -19,6 +19,7 @@ import EAO.Driver.CoarseStorage
 import EAO.Driver.CostsOnly
 import EAO.Driver.PriceSplit
 import EAO.Driver.FixSplit
+import EAO.Driver.SplitStorage
 /-!
 Line-protocol driver: one JSON request per line on stdin, one JSON response per line on stdout.
 `{"ok": …}` or `{"err": "<class>"}`.  Unknown or ill-formed requests are answered with
@@ -28,7 +29,7 @@ operations it knows.
 open Lean EAO EAO.Driver
 
 def handlers : List (String → Json → Option (Except String Json)) :=
-  [handleCore, handleGrid, handleOrderBook, handleContract, handleStorage, handleSlp, handleCHP, handleScaled, handlePeriodic, handleSplit, handleState, handlePrices, handleLinked, handleCoarseBuild, handleSplitBuild, handleParams, handleWrapWindow, handleCoarseStorage, handleCostsOnly, handlePriceSplit, handleFixSplit]
+  [handleCore, handleGrid, handleOrderBook, handleContract, handleStorage, handleSlp, handleCHP, handleScaled, handlePeriodic, handleSplit, handleState, handlePrices, handleLinked, handleCoarseBuild, handleSplitBuild, handleParams, handleWrapWindow, handleCoarseStorage, handleCostsOnly, handlePriceSplit, handleFixSplit, handleSplitStorage]
 
 def handle (j : Json) : Except String Json := do
   let op ← field j "op" Json.getStr?
